@@ -48,7 +48,9 @@ func runC15(c *an.Ctx) {
 	// ---- R9: a request is served (and therefore logged and billed) at most once; a deleted profile replaces the live record at once
 	c.Floor("C15-R9", 3)
 	c.Borrow("C15-R9", runC09, func(o an.Obligation) bool { return o.Rule == "C09-R1" })
-	c.Borrow("C15-R9", runC14, func(o an.Obligation) bool { return o.Rule == "C14-R8" && strings.Contains(o.Key, "setProfiles") })
+	c.Borrow("C15-R9", runC14, func(o an.Obligation) bool {
+		return o.Rule == "C14-R8" && (strings.Contains(o.Key, "setProfiles") || strings.Contains(o.Key, ").Refresh") || strings.Contains(o.Key, "fetchProfiles"))
+	})
 	// ---- R8: what makes a query anonymous or dropped: deleted profiles are not found; the access check sees the client's location
 	c.Floor("C15-R8", 2)
 	c.Borrow("C15-R8", runC03, func(o an.Obligation) bool { return o.Rule == "C03-R1" })
